@@ -13,7 +13,7 @@ from vlib import envkit, refhttp
 from vlib.hk import CFG, begin, ok, fail, skip, B, run, cat, concrete
 
 envkit.install()
-ROOT = '/srv/www'
+ROOT = '/srv/a'       # short name over the path alphabet, so that name-prefix siblings (/srv/ab, /srv/aa) are reachable
 FLAGS = FlagParser.initialize(['--threadless', '--enable-web-server', '--enable-static-server', '--static-server-dir', ROOT,
                                '--disable-http-proxy', '--min-compression-length', '1000'])
 FLAGS_TS = FlagParser.initialize(['--threadless', '--enable-web-server', '--enable-static-server', '--static-server-dir', ROOT + '/',
@@ -22,9 +22,9 @@ FLAGS_GZ = FlagParser.initialize(['--threadless', '--enable-web-server', '--enab
                                   '--disable-http-proxy', '--min-compression-length', '20'])
 BIG = b'IN-big:' + b'0123456789' * 4
 FILES = {
-    '/srv/www/a': b'IN-a', '/srv/www/b/a': b'IN-ba', '/srv/www/b/b': BIG, '/srv/www/e': b'',
-    '/srv/a': b'OUT-srv-a', '/srv/www-x/a': b'OUT-sibling', '/a': b'OUT-root-a', '/srv/b/a': b'OUT-srv-b-a', '/b/a': b'OUT-root-b-a',
-    '/srv/wwwa': b'OUT-prefix', '/etc/a': b'OUT-etc',
+    '/srv/a/a': b'IN-a', '/srv/a/b/a': b'IN-ba', '/srv/a/b/b': BIG, '/srv/a/e': b'',
+    '/srv/ab/a': b'OUT-sibling-with-name-prefix', '/srv/aa': b'OUT-file-with-name-prefix', '/srv/a.b': b'OUT-dot-sibling',
+    '/srv/b/a': b'OUT-srv-b-a', '/srv/e': b'OUT-srv-e', '/a': b'OUT-root-a', '/b/a': b'OUT-root-b-a', '/e': b'OUT-root-e', '/a/a': b'OUT-a-a',
 }
 NOT_FOUND = NOT_FOUND_RESPONSE_PKT.tobytes()
 OPENED = []
@@ -64,7 +64,7 @@ def fake_open(path, mode='r'):
     for k in FILES:
         if n == k:
             return _F(FILES[k])
-    if n == '/srv/www' or n == '/srv' or n == '/' or n == '/srv/www/b':
+    if n in ('/srv/a', '/srv', '/', '/srv/a/b', '/srv/ab', '/srv/b', '/b', '/a'):
         raise IsADirectoryError(21, 'Is a directory', path)
     raise FileNotFoundError(2, 'No such file', path)
 
@@ -167,7 +167,7 @@ def obligations(tier):
         obs.append({'name': 'static.n%d.first%s' % (n, chr(first) if first != 47 else 'slash'), 'fn': 'static',
                     'cfg': {'n': n, 'first': first}, 'timeout': 900 if tier == 'quick' else 3000})
     # deeper traversal shapes with a concrete prefix
-    for prefix in ('../', 'b/../', 'b/..', './.', '..%2e/', '%2e%2e/', 'a/../../', 'b/a/../..'):
+    for prefix in ('../', '../a', '../ab', 'b/../', 'b/..', './.', '..%2e/', '%2e%2e/', 'a/../../', 'b/a/../..', '../../'):
         m = 3 if tier == 'quick' else 4
         obs.append({'name': 'static.prefix[%s].n%d' % (prefix.replace('/', '|'), m), 'fn': 'static',
                     'cfg': {'n': m, 'prefix': prefix}, 'timeout': 600})
@@ -176,7 +176,7 @@ def obligations(tier):
     for v in vec:
         ln = 8 - v[::-1].index(0) if 0 in v else 8
     obs.append({'name': 'concrete.gzip', 'kind': 'concrete', 'fn': 'static_vec', 'cfg': {'gzip': True}, 'group': 'concrete',
-                'args_list': [[ord(c) for c in p] for p in ('b/b', 'b/b?', 'b/a', '../a', 'b/..', 'a?b/b', './b/b', 'b/./b', 'b//b?x')], 'timeout': 60})
+                'args_list': [[ord(c) for c in p] for p in ('b/b', 'b/b?', 'b/a', '../a', '../ab/a', 'b/..', 'a?b/b', './b/b', 'b/./b', 'b//b?x')], 'timeout': 60})
     obs.append({'name': 'static.trailing_slash_root.n3', 'fn': 'static', 'cfg': {'n': 3, 'trailing_slash_root': True}, 'timeout': 900})
     return obs
 
@@ -185,7 +185,7 @@ META = {
     'bounds': {
         'quick': 'request path = "/" + 5 symbolic characters over {/ . a b % 2 e ?} (32768 strings; a solver-decided ladder fixes each character per path), plus 8 concrete '
                  'traversal prefixes followed by 3 symbolic characters; static root with and without trailing slash; file tree with files '
-                 'inside the root, in a sibling directory sharing the root\'s name prefix, and one and two levels above',
+                 'inside the root, in sibling entries sharing the root\'s name prefix (/srv/ab/, /srv/aa, /srv/a.b), and one and two levels above',
         'thorough': '6 symbolic characters (262144 strings) and 4 after each prefix',
     },
     'outside': 'symlinks; non-ASCII paths; other characters than the 8-letter alphabet; gzip of symbolic content (files are concrete: '
